@@ -755,7 +755,20 @@ func (c *Ctx) ruleSigAllOps(rule string) {
 			if ft.Kind == "bool" && !ft.Pos && isCall(ft.A, fnSigAll) && exprIs(arg(ft.A, 0), inputs) {
 				return true
 			}
-			return ft.Kind == "errnil" && ft.Pos && isCall(ft.A, "mint.verifyBlindedMessages") && exprIs(arg(ft.A, 0), inputs) && exprIs(arg(ft.A, 1), outputs)
+			if ft.Kind != "errnil" || !ft.Pos || !isCall(ft.A, "mint.verifyBlindedMessages") {
+				return false
+			}
+			// the request's inputs and outputs are among the arguments, in this order (a logger or context argument
+			// may have been added in front of or between them)
+			ii, oi := -1, -1
+			for i, a := range ft.A.Args {
+				if ii < 0 && exprIs(a, inputs) {
+					ii = i
+				} else if oi < 0 && exprIs(a, outputs) {
+					oi = i
+				}
+			}
+			return ii >= 0 && oi > ii
 		}}
 		for _, s := range c.signerSites(swap) {
 			ok, why := c.RequireAt(s.Instr, cd)
@@ -783,7 +796,8 @@ func (c *Ctx) ruleOutputVerifier(rule string, htlc bool) {
 	}
 	fk := c.P.FuncKey(f)
 	o := c.P.OriginsOf(f)
-	proofs, outs := "P:"+f.Params[0].Name(), "P:"+f.Params[1].Name()
+	// parameters are found by their types: an added context / logger parameter does not move them
+	proofs, outs := paramOfType(f, "cashu.Proofs", "P:"+f.Params[0].Name()), paramOfType(f, "cashu.BlindedMessages", "P:"+f.Params[len(f.Params)-1].Name())
 	first := fnDeser + "#0(" + proofs + "[#0].Secret)"
 	cur := fnDeser + "#0(elem(" + proofs + ").Secret)"
 	outEl := "elem(" + outs + ")"
@@ -994,7 +1008,8 @@ func (c *Ctx) ruleKindDispatch(rule string) {
 		return
 	}
 	fk := c.P.FuncKey(f)
-	el := "elem(P:" + f.Params[1].Name() + ")"
+	inputsParam := paramOfType(f, "cashu.Proofs", "P:"+f.Params[1].Name())
+	el := "elem(" + inputsParam + ")"
 	sec := fnDeser + "#0(" + el + ".Secret)"
 	// the signature check of an input, in the validator or in a helper of it that is new on this tree
 	var verifies []ssa.CallInstruction
@@ -1047,7 +1062,7 @@ func (c *Ctx) ruleKindDispatch(rule string) {
 		}
 		// and no input gets around the dispatch: the validator accepts only when this held for EVERY input
 		// (an iteration that is skipped - a cache hit, a fast path - never asked the lock verifier)
-		all := &Cond{Name: "every input: not a " + k.name + " input, or its lock verifier succeeded", ForAll: "P:" + f.Params[1].Name(), Match: cd.Match}
+		all := &Cond{Name: "every input: not a " + k.name + " input, or its lock verifier succeeded", ForAll: inputsParam, Match: cd.Match}
 		okAll := c.P.OriginsOf(f).SuccessCut(all)
 		R.Check(rule, fk, "accept <= every "+k.name+" input passed its verifier", c.P.Pos(f.Pos()), okAll,
 			"the validator returns nil only when every input that is a "+k.name+" secret was accepted by "+k.fn, "a success return is reachable on which some input was not dispatched")
@@ -1225,4 +1240,14 @@ func (c *Ctx) ruleDecodeIntoFreshValue(rule string, fnKey string) {
 		}
 	}
 	_ = n
+}
+
+// paramOfType: "P:<name>" of the first parameter of f whose type prints with the given suffix; def when none.
+func paramOfType(f *ssa.Function, suffix, def string) string {
+	for _, p := range f.Params {
+		if strings.HasSuffix(p.Type().String(), suffix) {
+			return "P:" + p.Name()
+		}
+	}
+	return def
 }
